@@ -255,9 +255,9 @@ var (
 	c04CallDevs = []string{"false", "nil", "approval", "topicless", "error", "vmerror", "fabricate", "amt-1"}
 	c04Bal1Devs = []string{"+1", "-1", "nil", "error", "vmerror", "as-expected"}
 	// deviations used alone and in random combinations only
-	c04Bal0Extra = []string{"short"}
-	c04CallExtra = []string{"garbage", "short", "approval-first", "amt+1", "custom-then-approval", "custom-approval-first"}
-	c04Bal1Extra = []string{"short"}
+	c04Bal0Extra = []string{"short", "long"}
+	c04CallExtra = []string{"garbage", "short", "approval-first", "amt+1", "custom-then-approval", "custom-approval-first", "topicless-then-approval"}
+	c04Bal1Extra = []string{"short", "long"}
 )
 
 func runC04(e *Env) {
@@ -406,6 +406,8 @@ func runC04(e *Env) {
 				{Bal0: "+1", Bal1: "+1"}, {Bal0: "-1", Bal1: "-1"}, {Bal0: "+1", Bal1: "as-expected"},
 				{Call: "fabricate", Bal1: "as-expected"}, {Call: "amt-1", Bal1: "as-expected"}, {Call: "amt+1", Bal1: "as-expected"},
 				{Call: "false", Bal1: "as-expected"}, {Call: "approval", Bal1: "as-expected"}, {Call: "error", Bal1: "as-expected"},
+				// over-long balance answers whose trailing word moves by the amount although no token moved
+				{Bal0: "long", Call: "fabricate", Bal1: "long"}, {Bal0: "long", Bal1: "long"}, {Bal0: "long", Call: "amt-1", Bal1: "long"},
 			} {
 				one("b", pair, dir, pl)
 			}
